@@ -26,8 +26,8 @@ pub fn prop() -> Prop {
         id: "C04",
         level: "fault_enumeration",
         runs: |t| match t {
-            Tier::Quick => 700,
-            Tier::Thorough => 9000,
+            Tier::Quick => 3500,
+            Tier::Thorough => 40000,
         },
         generate,
         exec,
@@ -39,7 +39,7 @@ pub fn prop() -> Prop {
         stub: &["transport", "store", "glue", "random source", "Byzantine share rewrites"],
         independent: &["harness algebra for sum comparison"],
         ref_sample: |_| 0,
-        required_probes: &["cheater_middle_only", "all_cheat", "cancel_pair", "kind_negate", "kind_other_session", "kind_other_signer", "kind_zero", "tr_R_odd", "tr_R_even", "first_cheater_named", "all_cheaters_named"],
+        required_probes: &["cheater_middle_only", "all_cheat", "cancel_pair", "kind_negate", "kind_other_session", "kind_other_signer", "kind_zero", "tr_R_odd", "tr_R_even", "first_cheater_named", "all_cheaters_named", "below_threshold_checked"],
         prepare: None,
     }
 }
@@ -338,6 +338,55 @@ fn exec_c<C: Suite>(scen: &Scenario) -> Exec {
                     return Exec::Violation(Violation::new("C04", "C04.honest_participant_blamed", ctx(&format!("verify_signature_share names {e:?}"))), rep);
                 }
             }
+        }
+    }
+    // (1') below the real threshold: signers and coordinator whose key material understates the threshold (or, pre-3.0
+    // package, records none). Every share is then individually consistent, only the aggregate is wrong: whatever
+    // aggregation returns, a returned signature must verify.
+    if scen.t >= 2 && sess[0].2 == SignMode::Plain {
+        let kps = current_kps(&sim);
+        let mut bp = stream(scen.seed, scen.run, "c04/below");
+        let k = bp.range(1, scen.t as u64 - 1) as usize;
+        let members: Vec<usize> = bp.subset(scen.n as usize, k);
+        let low: Vec<frost::keys::KeyPackage<C>> = members
+            .iter()
+            .map(|m| {
+                let kp = &kps[m];
+                frost::keys::KeyPackage::<C>::new(*kp.identifier(), *kp.signing_share(), *kp.verifying_share(), *kp.verifying_key(), k as u16)
+            })
+            .collect();
+        let mut nn = Vec::new();
+        let mut cm = BTreeMap::new();
+        for (j, kp) in low.iter().enumerate() {
+            let mut rng = crate::simrng::SimRng::good(stream(scen.seed, scen.run, &format!("c04/below/{j}")));
+            let (a, b) = frost::round1::commit::<C, _>(kp.signing_share(), &mut rng);
+            nn.push(a);
+            cm.insert(*kp.identifier(), b);
+        }
+        let pkg = SigningPackage::<C>::new(cm, b"below threshold");
+        let mut shares = BTreeMap::new();
+        for (j, kp) in low.iter().enumerate() {
+            if let Ok(z) = frost::round2::sign::<C>(&pkg, &nn[j], kp) {
+                shares.insert(*kp.identifier(), z);
+            }
+        }
+        if shares.len() == k {
+            let base_pk = &sess[0].1.pk;
+            for thr in [None, Some(k as u16), Some(1u16)] {
+                let pk2 = PublicKeyPackage::<C>::new(base_pk.verifying_shares().clone(), *base_pk.verifying_key(), thr);
+                for (mname, r) in aggregate_all::<C>(&pkg, &shares, &pk2) {
+                    rep.evaluations += 1;
+                    if let Ok(sig) = r {
+                        if pk2.verifying_key().verify(pkg.message(), &sig).is_err() {
+                            return Exec::Violation(
+                                Violation::new("C04", "C04.invalid_signature_released", format!("{k} signers of a {}-of-{} group, public key package threshold {thr:?}: {mname} returned Ok with a signature that does NOT verify", scen.t, scen.n)),
+                                rep,
+                            );
+                        }
+                    }
+                }
+            }
+            rep.probe("below_threshold_checked");
         }
     }
     // (6) identifier-set inconsistencies between package, shares and public key package
